@@ -342,7 +342,10 @@ def handler_state_discipline(ctx: Ctx) -> None:
     g = build_cfg(cs.node)
     outer = [n for n in g.nodes if n.kind == "for" and unparse(n.ast.iter) == "self.container"]
     inner = [n for n in g.nodes if n.kind == "for" and unparse(n.ast.iter).endswith(".substitutions")]
-    ok = len(outer) == 1 and len(inner) == 1 and inner[0].id in [m for m, lab in g.succ[outer[0].id] if lab == "iter"]
+    # the registration loop runs for every class: it depends on no test - except a test of the very collection it iterates (skipping
+    # classes without substitutions is not a filter)
+    ok = len(outer) == 1 and len(inner) == 1 and outer[0].id in {p_ for p_ in g.reachable([inner[0].id], forward=False)} and all(
+        ".substitutions" in unparse(t.ast) for _, _, t in control_deps(cs, inner[0]))
     ctx.ob("create_substitutions registers the substitutions of EVERY class of the container (no tag filter)", ok, at=cs, construct="substitution registration",
            msg="the validator merges an element into its same-named complex type: filtering on the class tag drops those substitution-group members, and valid documents using them are rejected")
     n = 0
